@@ -372,6 +372,21 @@ def _bind_target(target, item, mapping):
     return False
 
 
+def _continue_to_if(body):
+    """`if c: continue` guard clauses at the top level of a loop body -> the rest of the body under `if not c:`"""
+    out = []
+    for i, st in enumerate(body):
+        if isinstance(st, ast.If) and not st.orelse and len(st.body) == 1 and isinstance(st.body[0], ast.Continue):
+            rest = _continue_to_if(body[i + 1:])
+            if rest is None:
+                return None
+            if rest:
+                out.append(ast.copy_location(ast.If(test=ast.UnaryOp(op=ast.Not(), operand=clone(st.test)), body=rest, orelse=[]), st))
+            return out
+        out.append(st)
+    return out
+
+
 def _unroll(loop):
     """statements equivalent to a `for` over a small literal iterable, or None"""
     if loop.orelse:
@@ -379,6 +394,10 @@ def _unroll(loop):
     items = _iter_items(loop.iter)
     if items is None:
         return None
+    body = _continue_to_if(loop.body)
+    if body is None:
+        return None
+    loop = ast.copy_location(ast.For(target=loop.target, iter=loop.iter, body=body, orelse=[]), loop)
     for n in _walk_own_stmts(loop.body):
         if isinstance(n, (ast.Break, ast.Continue)):
             return None
@@ -481,6 +500,10 @@ class Normalizer:
                 self.renamed.update(r_)
                 if not p_ and not r_:
                     break
+            if self.propagated:
+                self._unroll_new_loops(node)      # a loop over a table that was held in a temporary
+        if not os.environ.get("TYVERIF_NO_IFEXP"):
+            _expand_ifexp_statements(node, self.known)
         if self.flatten:
             node.body = _flatten_else(node.body)
         ast.fix_missing_locations(node)
@@ -489,6 +512,48 @@ class Normalizer:
                 child._parent = parent_
         node._parent = getattr(self.func.node, "_parent", None)
         return node
+
+    def _hoist_nested(self, st, root):
+        """[statements of the inlined helper..., st with the call replaced by the temporary] or None"""
+        blocked = set()
+        for n in ast.walk(st):
+            if isinstance(n, (ast.Lambda, ast.ListComp, ast.SetComp, ast.DictComp, ast.GeneratorExp)):
+                blocked |= {id(x) for x in ast.walk(n)}
+            elif isinstance(n, ast.IfExp):
+                blocked |= {id(x) for x in ast.walk(n.body)} | {id(x) for x in ast.walk(n.orelse)}
+            elif isinstance(n, ast.BoolOp):
+                for v in n.values[1:]:
+                    blocked |= {id(x) for x in ast.walk(v)}
+        for n in ast.walk(st):
+            if not isinstance(n, ast.Call) or id(n) in blocked or n is getattr(st, "value", None):
+                continue
+            h = self.helper_for(n, root)
+            if h is None:
+                continue
+            fn, drop = h
+            eh = _expr_helper(fn, drop)
+            if eh is not None and _inline_expr(n, eh) is not None:
+                continue            # handled at expression level
+            sh = _stmt_helper(fn, drop)
+            if sh is None:
+                continue
+            self.counter += 1
+            tmp = "_h%d_v" % self.counter
+            asg = ast.copy_location(ast.Assign(targets=[ast.Name(id=tmp, ctx=ast.Store())], value=n), st)
+            new = _inline_stmt(asg, n, sh, self.counter)
+            if new is None:
+                continue
+            target = n
+
+            class R(ast.NodeTransformer):
+                def visit_Call(self, c):
+                    if c is target:
+                        return ast.copy_location(ast.Name(id=tmp, ctx=ast.Load()), c)
+                    return self.generic_visit(c)
+            st2 = R().visit(st)
+            self.inlined.append(fn.name)
+            return list(new) + [st2]
+        return None
 
     def _unroll_new_loops(self, root):
         """`for` loops over a small literal iterable that are not in the snapshot are unrolled"""
@@ -552,6 +617,13 @@ class Normalizer:
                                     out.extend(new)
                                     changed = True
                                     continue
+                # a helper call nested inside a simple statement: hoisted in front of it as `_hN_v = <inlined body>`
+                if isinstance(st, (ast.Assign, ast.AugAssign, ast.Expr, ast.Return, ast.AnnAssign)):
+                    hoisted = self._hoist_nested(st, root)
+                    if hoisted is not None:
+                        out.extend(hoisted)
+                        changed = True
+                        continue
                 out.append(st)
             return out
         root.body = rec(root.body)
@@ -825,7 +897,8 @@ def _try_propagate(fnode, blk, i, name):
     value = st.value
     if any(isinstance(n, (ast.Yield, ast.YieldFrom, ast.Await, ast.NamedExpr)) for n in ast.walk(value)):
         return False
-    if len(loads) > 1 and not _pure_expr(value):
+    if len(loads) > 1 and (not _pure_expr(value) or len(ast.unparse(value)) > 100
+                           or any(isinstance(n, (ast.ListComp, ast.DictComp, ast.SetComp, ast.GeneratorExp)) for n in ast.walk(value))):
         return False
     if len(loads) == 1 and not _pure_expr(value):
         # a single use of an effectful call may move only if nothing else with effects lies in between: require the very next statement
@@ -854,6 +927,9 @@ def _try_propagate(fnode, blk, i, name):
                 if isinstance(b, ast.Name) and b.id in deps and b.id != "self":
                     return False
             if isinstance(n, ast.Call) and isinstance(n.func, ast.Attribute) and n.func.attr in MUTATORS:
+                if s is rest[last] and all(any(id(l) == id(x) for a_ in list(n.args) + [k_.value for k_ in n.keywords] for x in ast.walk(a_))
+                                           for l in loads if any(id(l) == id(x) for x in ast.walk(s))):
+                    continue        # the use is an argument of the mutating call itself: evaluated before the mutation
                 b = n.func.value
                 while isinstance(b, (ast.Subscript, ast.Attribute)):
                     b = b.value
@@ -880,3 +956,32 @@ def _try_propagate(fnode, blk, i, name):
 
 def _keep(blk, i):
     return True
+
+
+def _expand_ifexp_statements(fnode, known=()):
+    """`x = a if c else b` / `return a if c else b` / `f(a if c else b)` as a whole statement value -> if c: x = a else: x = b.
+    One canonical spelling for value selection, so that rules see the same guards either way."""
+    def rec(stmts):
+        out = []
+        for st in stmts:
+            if isinstance(st, (ast.FunctionDef, ast.AsyncFunctionDef, ast.ClassDef)):
+                out.append(st)
+                continue
+            for fld in ("body", "orelse", "finalbody"):
+                sub = getattr(st, fld, None)
+                if isinstance(sub, list) and sub and isinstance(sub[0], ast.stmt):
+                    setattr(st, fld, rec(sub))
+            if isinstance(st, ast.Try):
+                for h in st.handlers:
+                    h.body = rec(h.body)
+            v = getattr(st, "value", None)
+            if isinstance(st, (ast.Assign, ast.Return, ast.AugAssign, ast.AnnAssign)) and isinstance(v, ast.IfExp) \
+                    and "<ifexp>:" + ast.unparse(st) not in known:
+                a, b = clone(st), clone(st)
+                a.value, b.value = clone(v.body), clone(v.orelse)
+                new = ast.If(test=clone(v.test), body=rec([a]), orelse=rec([b]))
+                out.append(ast.copy_location(new, st))
+                continue
+            out.append(st)
+        return out
+    fnode.body = rec(fnode.body)
